@@ -1,10 +1,235 @@
 import Driver.Util
+import Hv.Conc.Claim
 
-/-! Placeholder: the line-protocol driver of domain C11 is not written yet. -/
+/-! Line-protocol driver of domain C11 (same ops and reply format as `/verif/harness/c11.go`). -/
 namespace Driver.C11
+open Hv.Claim
 
-def run (_args : List String) : IO UInt32 := do
-  IO.eprintln "drv: domain C11 has no driver yet"
-  return 2
+structure Th where
+  name : String
+  id : Nat
+  kind : String
+  how : Nat
+  filt : Option Nat
+  off : Int
+  newStatus : Nat
+  key : Nat
+  stage : String       -- cand | selected | beforeReindex | delheld | shiftsel | guard | stuck | done
+  result : String
+
+structure DSt where
+  cfg : Cfg
+  /-- lock-order facts: the selection pass takes record guards under the beacon lock; deleteHandler
+      updates the beacons while holding the record guard -/
+  guardUnderBeaconLock : Bool
+  beaconUnderGuard : Bool
+  mode : String
+  sp : St × Bool
+  ths : List Th
+
+def statusCode (s : String) : Nat :=
+  match s with | "pending" => 1 | "done" => 2 | "keep" => 3 | "leased" => 4 | "again" => 5 | _ => 9
+
+def statusName (n : Nat) : String :=
+  match n with | 1 => "pending" | 2 => "done" | 3 => "keep" | 4 => "leased" | 5 => "again" | _ => "?"
+
+def keyNum (k : String) : Option Nat := if k.startsWith "k" then (k.drop 1).toString.toNat? else none
+def keyName (n : Nat) : String := s!"k{n}"
+
+def tid (n : String) : Nat :=
+  match n with | "A" => 1 | "B" => 2 | "P" => 3 | "D" => 4 | "S" => 5 | _ => 6
+
+def showKeys (s : St) (ks : List Nat) : String :=
+  "[" ++ ",".intercalate (ks.map (fun k => s!"{keyName k}:{if (s.recs k).void then "void" else statusName (s.recs k).status}")) ++ "]"
+
+def sortNat (l : List Nat) : List Nat := (l.toArray.qsort (· < ·)).toList
+
+def stateLine (s : St) : String :=
+  let present := sortNat (s.born.filter (fun k => (s.recs k).present))
+  s!"idx=[{",".intercalate (s.index.map keyName)}] keys={showKeys s present}"
+
+def doStep (d : DSt) (a : Act) : Option (St × Bool) := step d.cfg d.sp a
+
+/-- a delete thread parked inside deleteHandler holds the guard of this key -/
+def heldKeys (d : DSt) : List Nat := (d.ths.filter (·.stage == "delheld")).map (·.key)
+
+def setTh (d : DSt) (t : Th) : DSt := { d with ths := d.ths.map (fun u => if u.name == t.name then t else u) }
+
+/-- shift claim (atomic in the model); the reply shows the clones taken at selection time -/
+def doShift (d : DSt) (c n : Nat) (want : Option Nat) : DSt × String :=
+  let before := d.sp.1
+  match doStep d (.shift c n want) with
+  | none => (d, "ERR")
+  | some sp' =>
+    let taken := (sp'.1.batches.getLast?.map (·.got)).getD []
+    let bad := (sp'.1.claimed.drop before.claimed.length).any (fun cl => !cl.ok)
+    ({ d with sp := sp' }, s!"keys={showKeys before taken}" ++
+      (if bad then (if want.isSome && candEmpty before c then "\t#F:C11-empty-candidate-set-matches-all"
+                    else if want.isSome && taken.all (fun k => (before.recs k).present) then "\t#F:C11-stale-candidate-set"
+                    else "\t#F:C11-claim-returns-deleted-record") else ""))
+
+def patchAll (d : DSt) (t : Th) : DSt × String :=
+  let sel := d.sp.1.sel t.id
+  let (d', out, bad) := sel.foldl (fun (acc : DSt × List String × Bool) k =>
+    let d0 := acc.1
+    let r := d0.sp.1.recs k
+    let code := if r.void || (d0.cfg.patchChecksExists && !r.present) then "KEY_NOT_FOUND" else "PATCHED"
+    let resurrect := code == "PATCHED" && !r.present
+    match doStep d0 (.ppatch t.id k t.newStatus t.off) with
+    | some sp' => ({ d0 with sp := sp' }, acc.2.1 ++ [s!"{keyName k}:{code}"], acc.2.2 || resurrect)
+    | none => (d0, acc.2.1 ++ [s!"{keyName k}:ERR"], acc.2.2)) (d, [], false)
+  (d', "patched=[" ++ ",".intercalate out ++ "]" ++ (if bad then "\t#F:C11-patch-resurrects-deleted" else ""))
+
+def advance (d : DSt) (t : Th) : DSt × String :=
+  match t.kind, t.stage with
+  | "shiftm", "cand" =>
+    let (d', r) := doShift d t.id t.how t.filt
+    (setTh d' { t with stage := "done" }, s!"{t.name} done {r}")
+  | "shiftexp", "shiftsel" => (setTh d { t with stage := "done" }, s!"{t.name} done {t.result}")
+  | "pexp", "cand" =>
+    match doStep d (.pselect t.id t.how true) with
+    | none => (d, "ERR")
+    | some sp' =>
+      let bad := (sp'.1.pclaimed.drop d.sp.1.pclaimed.length).any (fun cl => !cl.ok)
+      let flag := if bad then "\t#F:C11-stale-candidate-set" else ""
+      if (sp'.1.sel t.id).isEmpty then (setTh { d with sp := sp' } { t with stage := "done" }, s!"{t.name} done patched=[]" ++ flag)
+      else (setTh { d with sp := sp' } { t with stage := "selected" }, s!"{t.name}@pexp.selected" ++ flag)
+  | "pexp", "selected" =>
+    let (d', r) := patchAll d t
+    (setTh d' { t with stage := "beforeReindex", result := r }, s!"{t.name}@pexp.beforeReindex" ++
+      (if (r.splitOn "\t").length > 1 then "\t" ++ "\t".intercalate ((r.splitOn "\t").drop 1) else ""))
+  | "pexp", "beforeReindex" =>
+    match doStep d (.preindex t.id) with
+    | none => (d, "ERR")
+    | some sp' =>
+      let dead := sp'.1.index.any (fun k => !(sp'.1.recs k).present)
+      (setTh { d with sp := sp' } { t with stage := "done" },
+       s!"{t.name} done {(t.result.splitOn "\t").headD ""}" ++ (if dead then "\t#F:C11-reindex-resurrects-deleted" else ""))
+  | "del", "delheld" =>
+    -- is a claimer queued on this record's guard while holding the beacon lock?
+    if d.ths.any (fun u => u.stage == "guard") && d.beaconUnderGuard then
+      (setTh d { t with stage := "stuck" }, s!"{t.name} stuck\t#F:C11-claim-delete-deadlock")
+    else
+      match doStep d (.delete t.key) with
+      | some sp' => (setTh { d with sp := sp' } { t with stage := "done" }, s!"{t.name} done DELETED")
+      | none => (setTh d { t with stage := "done" }, s!"{t.name} done NOT_FOUND")
+  | _, _ => (d, "bad-op")
+
+def spawn (d : DSt) (ws : List String) : DSt × String :=
+  match ws with
+  | ["spawn", n, "shiftm", how, st] =>
+    match how.toNat?, doStep d (.snapshot (tid n) (statusCode st)) with
+    | some h, some sp' =>
+      let t : Th := { name := n, id := tid n, kind := "shiftm", how := h, filt := some (statusCode st), off := 0, newStatus := 0,
+                      key := 0, stage := "cand", result := "" }
+      ({ d with sp := sp', ths := d.ths ++ [t] }, s!"{n}@claim.candidates")
+    | _, _ => (d, "bad-op")
+  | ["spawn", n, "shiftexp", how] =>
+    match how.toNat? with
+    | some h =>
+      let t : Th := { name := n, id := tid n, kind := "shiftexp", how := h, filt := none, off := 0, newStatus := 0, key := 0,
+                      stage := "shiftsel", result := "" }
+      -- the pass takes the guard of every indexed record in turn
+      if d.guardUnderBeaconLock && d.sp.1.index.any (fun k => (heldKeys d).contains k) then
+        ({ d with ths := d.ths ++ [{ t with stage := "guard" }] }, s!"{n}@guard")
+      else
+        let (d', r) := doShift d (tid n) h none
+        ({ d' with ths := d'.ths ++ [{ t with result := (r.splitOn "\t").headD "" }] }, s!"{n}@shift.selected")
+    | none => (d, "bad-op")
+  | ["spawn", n, "pexp", how, f, off, ns] =>
+    match how.toNat?, off.toInt? with
+    | some h, some o =>
+      let t : Th := { name := n, id := tid n, kind := "pexp", how := h, filt := if f == "-" then none else some (statusCode f),
+                      off := o, newStatus := statusCode ns, key := 0, stage := "cand", result := "" }
+      if f == "-" then
+        match doStep d (.pselect (tid n) h false) with
+        | none => (d, "ERR")
+        | some sp' =>
+          if (sp'.1.sel (tid n)).isEmpty then ({ d with sp := sp', ths := d.ths ++ [{ t with stage := "done" }] }, s!"{n} done patched=[]")
+          else ({ d with sp := sp', ths := d.ths ++ [{ t with stage := "selected" }] }, s!"{n}@pexp.selected")
+      else
+        match doStep d (.snapshot (tid n) (statusCode f)) with
+        | some sp' => ({ d with sp := sp', ths := d.ths ++ [t] }, s!"{n}@claim.candidates")
+        | none => (d, "ERR")
+    | _, _ => (d, "bad-op")
+  | ["spawn", n, "del", k] =>
+    match keyNum k with
+    | some kn =>
+      let t : Th := { name := n, id := tid n, kind := "del", how := 0, filt := none, off := 0, newStatus := 0, key := kn,
+                      stage := "delheld", result := "" }
+      if (d.sp.1.recs kn).present then ({ d with ths := d.ths ++ [t] }, s!"{n}@del.acquired")
+      else ({ d with ths := d.ths ++ [{ t with stage := "done" }] }, s!"{n} done NOT_FOUND")
+    | none => (d, "bad-op")
+  | _ => (d, "bad-op")
+
+def step (d : DSt) (line : String) : DSt × String :=
+  match words line with
+  | ["case", _, mode, kind] => ({ d with mode := mode, sp := init (kind == "p0"), ths := [] }, line)
+  | ws =>
+    if d.mode == "forced" then
+      match ws with
+      | ["seed", k, st, off] =>
+        match keyNum k, off.toInt? with
+        | some kn, some o =>
+          match doStep d (.seed kn (statusCode st) o) with
+          | some sp' => ({ d with sp := sp' }, "CREATED")
+          | none => (d, "ERR")
+        | _, _ => (d, "bad-op")
+      | "spawn" :: n :: _ => if d.ths.any (·.name == n) then (d, "bad-op") else spawn d ws
+      | ["go", n] =>
+        match d.ths.find? (·.name == n) with
+        | some t => if t.stage == "done" then (d, "bad-op") else advance d t
+        | none => (d, "bad-op")
+      | ["poll", n] =>
+        match d.ths.find? (·.name == n) with
+        | some t => if t.stage == "guard" || t.stage == "stuck" then (d, s!"{n} stuck") else (d, "bad-op")
+        | none => (d, "bad-op")
+      | ["patch", k, st] =>
+        match keyNum k with
+        | some kn =>
+          match doStep d (.setStatus kn (statusCode st)) with
+          | some sp' =>
+            -- the record's expirationTimeChanged flag is sticky: every save refreshes the expiration index
+            match Hv.Claim.step d.cfg sp' (.expIndex kn) with
+            | some sp2 => ({ d with sp := sp2 }, "PATCHED")
+            | none => ({ d with sp := sp' }, "PATCHED")
+          | none => (d, "KEY_NOT_FOUND")
+        | none => (d, "bad-op")
+      | ["del", k] =>
+        match keyNum k with
+        | some kn =>
+          match doStep d (.delete kn) with
+          | some sp' => ({ d with sp := sp' }, "DELETED")
+          | none => (d, "NOT_FOUND")
+        | none => (d, "bad-op")
+      | ["shiftexp", how] =>
+        match how.toNat? with
+        | some h => doShift d 7 h none
+        | none => (d, "bad-op")
+      | ["shiftm", how, st] =>
+        match how.toNat?, doStep d (.snapshot 8 (statusCode st)) with
+        | some h, some sp' => doShift { d with sp := sp' } 8 h (some (statusCode st))
+        | _, _ => (d, "bad-op")
+      | ["state"] => (d, stateLine d.sp.1)
+      | _ => (d, "bad-op")
+    else if d.mode == "stress" then
+      match ws with
+      | ["stress", _, r, _] =>
+        match r.toNat? with
+        | some n => (d, s!"ok claimed={n} dup=0 overmax=0 disorder=0 left=0")
+        | none => (d, "bad-op")
+      | _ => (d, "bad-op")
+    else (d, "bad-op")
+
+def run (args : List String) : IO UInt32 := do
+  let kv := parseArgs args
+  let yes := fun (k : String) => arg kv k == "yes"
+  let cfg : Cfg := { selectAtomic := yes "selectUnderLock", counterLe := arg kv "counterCmp" == "le",
+                     checksExpNonZero := yes "checksExpNonZero", rechecksIndexedLeg := yes "rechecksIndexedLeg",
+                     reindexChecksExists := yes "reindexChecksExists", patchChecksExists := yes "patchChecksExists",
+                     emptyCandMeansAll := yes "emptyCandMeansAll" }
+  lineLoop step { cfg := cfg, guardUnderBeaconLock := arg kv "guardUnderBeaconLock" != "no",
+                  beaconUnderGuard := arg kv "beaconUnderGuard" != "no", mode := "", sp := init false, ths := [] }
+  return 0
 
 end Driver.C11
